@@ -26,17 +26,19 @@ def obligations(tier):
     t = 60 if tier == "quick" else 300
     return [
         CH("value_to_label", M, "value_side", t, functions=F[0::2], stubs=[FMT],
-           bounds="scale in 5 scales (forked), v: every int 0..100 (symbolic)"),
+           bounds="scale in 5 scales (forked), v: every int 0..100 (symbolic); in a fresh state and after a fixed history (every value and label converted once)"),
         CH("out_of_range_refused", M, "out_of_range", t, functions=F[0::2], stubs=[FMT],
-           bounds="v: EVERY int < 0 or > 100 (unbounded symbolic int; no loop, so no unwinding bound)"),
+           bounds="v: EVERY int < 0 or > 100 (unbounded symbolic int; no loop, so no unwinding bound); in a fresh state and after a fixed history (every value and label converted once)"),
         CH("monotone", M, "monotone", t, functions=F[0::2], stubs=[FMT],
            bounds="all pairs 0 <= a <= b <= 100 (symbolic)"),
         CH("label_to_value_and_unknown_refused", M, "label_side", t, plugin="str", functions=F, stubs=[FMT],
-           bounds="s: every str with len <= 40 (symbolic)"),
+           bounds="s: every str with len <= 40 (symbolic); in a fresh state and after a fixed history"),
         CH("label_roundtrip_table", M, "label_roundtrip", t, functions=F, stubs=[FMT], mode="E1s",
            bounds="every (scale, label) row of the frozen table (selector-enumerated)"),
         CH("value_answers_do_not_depend_on_history", M, "value_after_history", t, functions=F[0::2], stubs=[FMT], mode="E1s",
-           bounds="two conversions in a row on the same scale: every ordered pair of ints in -2..102, 5 scales (first value selector-enumerated, second looped)"),
+           bounds="two conversions in a row on the same scale: every ordered pair of ints in -103..103 (and four far values second), 5 scales; both loops inside the harness in a fixed order"),
+        CH("label_answers_do_not_depend_on_history", M, "label_pairs", t, functions=F[1::2], stubs=[FMT], mode="E1s",
+           bounds="two or three label conversions in a row on the same scale (the second repeated): every ordered pair from all 40 labels of all scales plus 12 unknown spellings, 5 scales"),
         CH("non_label_objects_refused", M, "non_label_objects", t, functions=F[1::2], stubs=[FMT], mode="E1s",
            bounds="5 scales x 12 objects that are not strings (None, bools, numbers, bytes, containers holding a label, NaN)"),
         CH("answers_do_not_depend_on_history", M, "label_after_history", t, functions=F, stubs=[FMT], mode="E1s",
